@@ -179,10 +179,15 @@ class G:
             self.n_fn += 1
             dflt = P.funapp(fv, factory=True)
         dom = None
-        if self.cfg.domains and self.chance(0.12):
+        if self.cfg.domains and self.chance(0.3 if self.cfg.raising else 0.12):
             c = self.rng.random()
-            if self.cfg.raising and c < 0.25:
-                dom = P.fnvalue(self.fresh_fn("dom"))
+            if self.cfg.raising and c < 0.4:
+                # a user predicate that raises on some supplied values
+                self.n_fn += 1
+                name = f"dom{self.n_fn}"
+                P.const_fn(name, True, **{"raise": {"cls": self.pick(["KeyError", "ValueError", "LookupError", "RuntimeError"]),
+                                                    "on": [self.pick(SCALARS) for _ in range(3)]}})
+                dom = P.fnvalue(name)
             elif c < 0.5:
                 dom = P.value([x for x in SCALARS if self.chance(0.7)])
             elif c < 0.8:
@@ -195,6 +200,8 @@ class G:
         """an expression yielding a hashable scalar used to choose a branch"""
         P = self.P
         r = self.rng.random()
+        if self.cfg.catch_unsafe and depth > 0 and self.chance(0.3):
+            r = 0.75
         if r < 0.45:
             self.count("option")
             return P.option(self.pick(DISPATCH_KEYS), bare=True)
@@ -203,8 +210,10 @@ class G:
             return P.option(self.pick(DISPATCH_KEYS), dflt=P.value(self.pick(DISPATCH_VALUES)) if self.chance(0.6) else None)
         if r < 0.8 and depth > 0 and self.cfg.catch_unsafe:
             # dispatch that can fail after reading a present key (F19 trigger)
+            # a compound dispatch: it fails with an EvaluationError that is not a KeyNotFoundError when the key is absent
             self.count("apply")
-            return P.apply(P.option(self.pick(DISPATCH_KEYS), dflt=P.value("x")), P.fnvalue(self.fresh_fn("g")))
+            return P.apply(P.option(self.pick(DISPATCH_KEYS), dflt=P.value("x") if self.chance(0.4) else None),
+                           P.fnvalue(self.fresh_fn("g") if self.chance(0.5) else "ident"))
         if r < 0.9 and depth > 0 and self.cfg.datasets:
             # a dataset as dispatch: constant body, nothing that can fail (no F19 trigger)
             self.count("dataset")
@@ -343,7 +352,10 @@ class G:
         if kind == "map":
             self.count("map")
             keys = self.rng.sample(["A", "B", "S.X", "C"], self.rng.randint(1, 2))
+            # sometimes the iterable reads the very key it maps (Map(e, {'A': Option('A')}): fan out over a list option)
             its = [(k, self.expr("list", min(d, 1))) for k in keys]
+            if self.chance(0.35) and self.cfg.lists:
+                its.append(("L", P.option("L")))     # well-typed: L always holds a list
             m = P.map(self.expr("any", d), its)
             return P.apply(m, P.fnvalue("py:list"))
         if kind == "all":
@@ -460,7 +472,7 @@ def base_options(rng: random.Random, cfg: Cfg) -> Dict[str, Any]:
     for k in DISPATCH_KEYS:
         o[k] = rng.choice(DISPATCH_VALUES)
     if cfg.sections:
-        o["S"] = {"X": rng.choice(SCALARS), "Y": rng.choice(SCALARS), "U": {"V": rng.choice(SCALARS)}}
+        o["S"] = {"X": rng.choice(SCALARS), "Y": rng.choice(SCALARS), "U": {"V": rng.choice(SCALARS), "W": rng.choice(SCALARS)}}
         if rng.random() < 0.6:
             o["S"]["XY"] = rng.choice(SCALARS)
         o["T"] = {"X": rng.choice(SCALARS), "Z": rng.choice(SCALARS)}
